@@ -263,18 +263,26 @@ def _blockify(clients: Iterable[Tuple[ClientId, Iterable[BatchExample],
         client_input=[client_input for _, _, client_input in block])
 
 
+def _leading_axis_sharding(devices: Sequence[Any]):
+  """Sharding that places slice i of the leading axis on devices[i]."""
+  mesh = jax.sharding.Mesh(list(devices), ('devices',))
+  return jax.sharding.NamedSharding(mesh, jax.sharding.PartitionSpec('devices'))
+
+
 def _device_put_sharded(shards: Sequence[PyTree], devices: Sequence[Any]):
-  """jax.device_put_sharded, or stacking on the leading axis where JAX removed it."""
+  """jax.device_put_sharded, or its equivalent where JAX removed it."""
   if hasattr(jax, 'device_put_sharded'):
     return jax.device_put_sharded(shards, devices)
-  return jax.tree_util.tree_map(lambda *xs: jnp.stack(xs), *shards)
+  stacked = jax.tree_util.tree_map(lambda *xs: jnp.stack(xs), *shards)
+  return jax.device_put(stacked, _leading_axis_sharding(devices))
 
 
 def _device_put_replicated(x: PyTree, devices: Sequence[Any]):
-  """jax.device_put_replicated, or stacking copies where JAX removed it."""
+  """jax.device_put_replicated, or its equivalent where JAX removed it."""
   if hasattr(jax, 'device_put_replicated'):
     return jax.device_put_replicated(x, devices)
-  return jax.tree_util.tree_map(lambda l: jnp.stack([l] * len(devices)), x)
+  stacked = jax.tree_util.tree_map(lambda l: jnp.stack([l] * len(devices)), x)
+  return jax.device_put(stacked, _leading_axis_sharding(devices))
 
 
 class ForEachClientPmapBackend(ForEachClientBackend):
